@@ -97,12 +97,34 @@ fn gen_doc(rng: &mut Rng) -> (Vec<(String, String)>, String, String, Vec<String>
   for (m, c) in pool.iter().take(nimp) {
     let dup = if rng.chance(1, 6) { format!(", {c}") } else { String::new() };
     let semi = if rng.bool() { ";" } else { "" };
-    doc.push_str(&format!("import {{ {c}{dup} }} from {m}{semi}"));
-    if rng.chance(1, 4) {
-      doc.push_str(" // trailing comment");
-      layout.push("comment-after-import".into());
+    if rng.chance(1, 8) {
+      doc.push_str(&format!("import {{{nl}  {c}{dup}{nl}}} from {m}{semi}"));
+      layout.push("import-over-several-lines".into());
+    } else {
+      doc.push_str(&format!("import {{ {c}{dup} }} from {m}{semi}"));
     }
-    doc.push_str(nl);
+    // what follows the import on its own line
+    match rng.below(12) {
+      0..=2 => {
+        doc.push_str(" // trailing comment");
+        layout.push("comment-after-import".into());
+        doc.push_str(nl);
+      }
+      3 => {
+        doc.push_str(&format!(" /* block comment that starts here{nl}   and ends on a later line */{nl}"));
+        layout.push("multi-line-comment-after-import".into());
+      }
+      4 if semi == ";" => {
+        // the next item continues on the same line
+        doc.push(' ');
+        layout.push("next-item-on-the-same-line".into());
+      }
+      5 => {
+        doc.push_str(&format!("   \t{nl}"));
+        layout.push("trailing-whitespace".into());
+      }
+      _ => doc.push_str(nl),
+    }
     if rng.chance(1, 5) {
       doc.push_str(&format!("/* comment between imports */{nl}"));
       layout.push("comment-between-imports".into());
@@ -122,6 +144,14 @@ fn gen_doc(rng: &mut Rng) -> (Vec<(String, String)>, String, String, Vec<String>
   };
   layout.push(["use-in-expression", "use-in-annotation", "use-in-both"][use_kind].to_string());
   doc.push_str(&body);
+  if rng.chance(1, 6) {
+    // no line terminator at the end of the document
+    while doc.ends_with('\n') || doc.ends_with('\r') {
+      doc.pop();
+    }
+    layout.push("no-final-newline".into());
+  }
+
   mods.push(("app.Doc".into(), doc.clone()));
   (mods, "app.Doc".into(), target, exporters, layout.join(","))
 }
